@@ -28,7 +28,7 @@ func init() { register(c06{}) }
 func (c06) ID() string    { return "C06" }
 func (c06) Level() string { return "exploration" }
 func (c06) Rule() string {
-	return "streams = concatenations of 1..16 frames (valid frames of all 15 types encoded by the library and by the reference encoder, frames of remaining length 0, content-malformed frames, type-0 frames) followed by nothing, arbitrary bytes or a partial next frame; read by successive ReadPacket calls through a byte-counting reader over a full-fill reader, bufio readers of 16/4096 bytes (wrapped, and handed over as they are), unwrapped *bytes.Buffer / *bytes.Reader / *strings.Reader, a connection wrapper whose Len() reports the bytes staged so far, one-byte and random fragmentation with zero-length reads, real net.Pipe / os.Pipe / loopback TCP connections fed by a fragmenting writer goroutine, and lock-step peers (one frame, then silence until it has been read) over net.Pipe / os.Pipe with and without the caller's own bufio.Reader. Offline checker over the per-call event log: bytes drawn per call = 1 + size of remaining-length field + remaining length (reference header parser), conservation over the stream, k-th result = result of frame k alone, io.EOF after the last frame, trailing bytes untouched. distinct = (type sequence, frame kinds, reader kind, trailer kind); non-trivial = at least two frames or a trailer"
+	return "streams = concatenations of 1..16 frames (valid frames of all 15 types encoded by the library and by the reference encoder, frames of remaining length 0, content-malformed frames, type-0 frames) followed by nothing, arbitrary bytes or a partial next frame; read by successive ReadPacket calls through a byte-counting reader over a full-fill reader, bufio readers of 16/4096 bytes (wrapped, and handed over as they are), unwrapped *bytes.Buffer / *bytes.Reader / *strings.Reader, a connection wrapper whose Len() reports the bytes staged so far, one-byte and random fragmentation with zero-length reads, real net.Pipe / os.Pipe / loopback TCP connections fed by a fragmenting writer goroutine, and lock-step peers (one frame, then silence until it has been read) over net.Pipe / os.Pipe with and without the caller's own bufio.Reader; a connection with the deadline methods of a net.Conn on a virtual clock whose peer keeps quiet for an hour before every frame (a deadline armed by the library and left behind fires there); every first byte x remaining lengths 0..20 x several bodies with a sentinel frame behind; frames of 16 MiB and more (up to 268 435 455 in the thorough tier) with a sentinel behind. Offline checker over the per-call event log: bytes drawn per call = 1 + size of remaining-length field + remaining length (reference header parser), conservation over the stream, k-th result = result of frame k alone, io.EOF after the last frame, trailing bytes untouched. distinct = (type sequence, frame kinds, reader kind, trailer kind); non-trivial = at least two frames or a trailer"
 }
 func (c06) Assumptions() []string {
 	return []string{"readers obey the io.Reader contract", "a call whose fixed header is itself invalid (remaining length longer than four bytes) is outside the statement and ends the stream"}
@@ -36,12 +36,12 @@ func (c06) Assumptions() []string {
 
 func (c06) Phases(env run.Env) []run.Phase {
 	if env.Thorough {
-		return []run.Phase{{Name: "adjacency", N: 256 * 16}, {Name: "streams", N: 700000}, {Name: "soak", N: 12000}}
+		return []run.Phase{{Name: "adjacency", N: 256 * 16}, {Name: "streams", N: 700000}, {Name: "soak", N: 12000}, {Name: "first-byte-sweep", N: 256 * 8}, {Name: "giant", N: 4}}
 	}
-	return []run.Phase{{Name: "adjacency", N: 256}, {Name: "streams", N: 3000}, {Name: "soak", N: 96}}
+	return []run.Phase{{Name: "adjacency", N: 256}, {Name: "streams", N: 3000}, {Name: "soak", N: 96}, {Name: "first-byte-sweep", N: 256}, {Name: "giant", N: 1}}
 }
 
-var readerKinds = []string{"full", "bufio16", "bufio4096", "one-byte", "random", "random-zeros", "iotest-half", "bufio-direct16", "bufio-direct4096", "bytes.Buffer-direct", "bytes.Reader-direct", "strings.Reader-direct", "staged-buffer"}
+var readerKinds = []string{"full", "bufio16", "bufio4096", "one-byte", "random", "random-zeros", "iotest-half", "bufio-direct16", "bufio-direct4096", "bytes.Buffer-direct", "bytes.Reader-direct", "strings.Reader-direct", "staged-buffer", "deadline-conn", "deadline-conn-3"}
 
 type halfReader struct{ r io.Reader }
 
@@ -152,6 +152,58 @@ func (c06) Run(c *run.Ctx, phase, idx int) {
 			return
 		}
 		c06Soak(c, r, s, []string{"net.Pipe", "os.Pipe", "tcp"}[(idx/2)%3])
+	case 3:
+		// every first byte with every small remaining length, a sentinel
+		// frame behind it: whatever the first frame is taken for, the call
+		// must leave the stream at the sentinel
+		fb := byte(idx % 256)
+		sentinel := wireFrame{Bytes: []byte{0xc0, 0x00}, Kind: "ref", Type: 12}
+		if idx >= 256 {
+			sentinel = frameOfType(r, 1+r.Intn(15))
+		}
+		for L := 0; L <= 20; L++ {
+			bodies := [][]byte{make([]byte, L), r.Bytes(L)}
+			if idx >= 256 {
+				bodies = append(bodies, r.Bytes(L), bytes.Repeat([]byte{0xff}, L))
+			}
+			if L > 0 {
+				// the body of a valid frame of that type, cut or padded to L
+				if t := int(fb >> 4); t != 0 {
+					v := frameOfType(r, t)
+					if h, err := ref.ParseHeader(v.Bytes); err == nil {
+						b := append([]byte(nil), v.Bytes[h.HdrLen:]...)
+						for len(b) < L {
+							b = append(b, 0)
+						}
+						bodies = append(bodies, b[:L])
+					}
+				}
+			}
+			for _, body := range bodies {
+				f := wireFrame{Bytes: ref.Reframe(fb, body), Kind: "first-byte-sweep", Type: int(fb >> 4)}
+				s := streamCase{frames: []wireFrame{f, sentinel}, tkind: "none"}
+				c06Check(c, r, s, "full")
+				if L%4 == 1 {
+					c06Check(c, r, s, readerKinds[1+r.Intn(len(readerKinds)-1)])
+				}
+			}
+			c.Tick()
+		}
+		c.Count("first-byte-sweep", fmt.Sprintf("0x%x_", fb>>4), 1)
+	case 4:
+		// a frame of 16 MiB and more, a sentinel behind it
+		rem := gen.GiantSizes[idx%len(gen.GiantSizes)]
+		release := c.HugeGate(int64(rem))
+		defer release()
+		c.SetHeapBudget(mon.LiveHeap() + 16*int64(rem) + 1<<30)
+		defer c.SetHeapBudget(0)
+		c.Allow(int64(rem) * 2000)
+		b, fm := ref.Encode(gen.GiantPacket(r, rem))
+		s := streamCase{frames: []wireFrame{{Bytes: b, Kind: "ref", Type: 3, FM: fm}, {Bytes: []byte{0xc0, 0x00}, Kind: "ref", Type: 12}}, tkind: "none"}
+		c.Count("giant-remaining-length", fmt.Sprint(rem), 1)
+		c06Check(c, r, s, "full")
+		c.Allow(int64(rem) * 2000)
+		c06Check(c, r, s, "bufio-direct4096")
 	}
 }
 
@@ -190,6 +242,24 @@ func c06Judge(c *run.Ctx, s streamCase, rkind string, rd io.Reader) {
 		sr := strings.NewReader(string(stream))
 		src = sr
 		pos = func() int64 { return int64(len(stream) - sr.Len()) }
+	}
+	var dconn *mon.DeadlineConn
+	if strings.HasPrefix(rkind, "deadline-conn") {
+		// a connection with SetReadDeadline & co. on a virtual clock: the peer
+		// keeps quiet for an hour before every frame; a deadline the library
+		// armed and left behind fires then
+		chunk := 0
+		if rkind == "deadline-conn-3" {
+			chunk = 3
+		}
+		dconn = mon.NewDeadlineConn(stream, chunk)
+		src = dconn
+		pos = func() int64 { return int64(dconn.Consumed()) }
+		defer func() {
+			c.Count("deadline-conn", "streams", 1)
+			c.Count("deadline-conn", "deadline-calls-by-the-library", int64(dconn.SetCalls))
+			c.Count("deadline-conn", "reads", int64(dconn.ReadsCount))
+		}()
 	}
 	if strings.HasPrefix(rkind, "bufio-direct") {
 		// the caller's own *bufio.Reader goes to ReadPacket as it is (as a
@@ -250,8 +320,15 @@ func c06Judge(c *run.Ctx, s streamCase, rkind string, rd io.Reader) {
 		c.Current(func() string {
 			return fmt.Sprintf("ReadPacket stream=%s offset=%d reader=%s", hexClip(stream, 512), off, rkind)
 		})
+		if dconn != nil {
+			dconn.Idle(time.Hour)
+		}
 		res := mon.Read(src)
 		c.Eval(1)
+		if dconn != nil && dconn.TimedOut > 0 {
+			fail("deadline-left-armed/"+tname(f.Type), fmt.Sprintf("frame %d arrived after an hour of silence (virtual clock) and was not returned: a read deadline armed during an earlier call was still in force (%d deadline calls, %d arming); err=%v", k, dconn.SetCalls, dconn.ArmCalls, res.Err))
+			return
+		}
 		drawn := pos() - before
 		ev := callEvent{Call: k, PosBefore: before, Drawn: drawn, Expected: int64(h.Total())}
 		switch {
